@@ -1,9 +1,10 @@
 import BearVerif.Core.Sexp
 import BearVerif.Core.BearExpr
+import BearVerif.Lemmas.BearTable
 /-!
   Line-protocol driver of the Bear core (C01 C02 C03 C09 C10 C12 C18):
     (gen ISRANDOM HINT)                 -> the generated expression
-    (run WORLD ISRANDOM (R…) HINT OBJ)  -> (sat (chk evalresult)…)   one pair per draw
+    (run WORLD ISRANDOM (R…) HINT OBJ)  -> (sat hyps (chk evalresult)…)   one pair per draw; hyps = the theorems' side conditions hold
   WORLD = (N (sub rows as 0/1 strings) sized indexable reiter mapping) sent by the harness
   from the running interpreter (`issubclass` on the real classes).
 -/
@@ -106,15 +107,11 @@ def predTable (f : Nat) (x : Obj) : Bool :=
   | 4 => (match x.atom with | .str s => s.length ≥ 2 | _ => false)           -- isinstance(x, str) and len(x) >= 2
   | _ => false
 
-def worldOf : Sexp → Option World
+def tableOf : Sexp → Option Table
   | .list [.list rows, sized, indexable, reiter, mapping] => do
     let m ← (rows.mapM bitsOf)
-    let ma := m.toArray
     let sz ← bitsOf sized; let ix ← bitsOf indexable; let ri ← bitsOf reiter; let mp ← bitsOf mapping
-    pure { sub := fun c d => c == d || ((ma[c]?.bind (·[d]?)).getD false),
-           sized := fun c => sz[c]?.getD false, indexable := fun c => ix[c]?.getD false,
-           reiter := fun c => ri[c]?.getD false, mapping := fun c => mp[c]?.getD false,
-           pred := predTable }
+    pure { rows := m.map Array.toList, sized := sz.toList, indexable := ix.toList, reiter := ri.toList, mapping := mp.toList }
   | _ => none
 
 def boolStr (b : Bool) : Sexp := .atom (if b then "true" else "false")
@@ -124,10 +121,13 @@ def handle : Sexp → Option Sexp
     let h ← hintOf h
     pure (exprStr (genRoot { isRandom := rnd == "true" } h))
   | .list [.atom "run", w, .atom rnd, rs, h, x] => do
-    let W ← worldOf w
+    let t ← tableOf w
+    let W := t.world predTable          -- the very world the table theorems speak about
     let h ← hintOf h
     let x ← objOf x
     let rs ← natsOf rs
+    -- the decidable side conditions of C01_compile / C01_no_false_alarm for THIS case
+    let hyps := decide (4 ≤ t.rows.length) && t.checkWf && h.capsOk t && x.wf W
     let conf : Conf := { isRandom := rnd == "true" }
     let one (r : Nat) : Sexp :=
       let ev := eval W r (fun v => if v = pv 0 then some x else none) (genRoot conf h)
@@ -136,7 +136,7 @@ def handle : Sexp → Option Sexp
         | some _ => .atom "nonbool"
         | none => .atom "raises"
       .list [boolStr (chk W conf r h x), evs]
-    pure (.list (boolStr (sat W h x) :: rs.map one))
+    pure (.list (boolStr (sat W h x) :: boolStr hyps :: rs.map one))
   | _ => none
 
 end BearVerif.Bear
